@@ -4,6 +4,7 @@ import (
 	"encoding/json"
 	"runtime"
 	"sort"
+	"time"
 
 	cc "connectrpc.com/conformance/internal/app/connectconformance"
 	"connectrpc.com/conformance/internal/verifharness/gen"
@@ -103,6 +104,65 @@ func c10WedgeScenarios(c *gen.Ctx) []any {
 	return ins
 }
 
+// op "rawout": arbitrary bytes where the runner expects the next length prefix of the client's
+// output (see verif_export_c10raw.go), run in a child process so that the death of the runner is an
+// observation ({"crashed": true, …}).
+func init() {
+	gen.RegisterOp("c10", "rawout", func(_ *gen.Ctx, raw json.RawMessage) any {
+		if c11InChild() {
+			return cc.VerifC10RawOut(gen.Into[cc.VerifC10RawSpec](raw))
+		}
+		return c11ChildRun("c10", "rawout", raw, 60*time.Second)
+	})
+}
+
+func c10RawScenarios(c *gen.Ctx) []any {
+	var ins []any
+	add := func(kind string, n, pos int, hexs, then string) {
+		ins = append(ins, cc.VerifC10RawSpec{N: n, Pos: pos, Hex: hexs, Then: then})
+		c.E.Count("raw:" + kind)
+	}
+	// first byte >= 0x80: the sign boundary and the end of the 32-bit range, text a client may print
+	// by accident (UTF-8 byte-order mark, UTF-16 LE / BE, a check mark, an umlaut), random bytes
+	high := []string{
+		"80000000", "ffffffff", "80000001", "fffffffc",
+		gen.Hex([]byte("\xef\xbb\xbfstarting up\n")), gen.Hex([]byte("\xff\xfeL\x00i\x00s\x00t\x00")), gen.Hex([]byte("\xfe\xff\x00L\x00i\x00s")),
+		gen.Hex([]byte("\xe2\x9c\x93 done\n")), gen.Hex([]byte("\xc3\x9cberwachung\n")),
+	}
+	for i := 0; i < 3; i++ {
+		b := c.R.Bytes(c.R.Range(4, 12))
+		b[0] |= 0x80
+		high = append(high, gen.Hex(b))
+	}
+	// every position: before any answer, between answers, as the last thing
+	for k, h := range high {
+		for n := 1; n <= 3; n++ {
+			for pos := 0; pos <= n; pos++ {
+				for _, then := range []string{"exit0", "more"} {
+					if !c.Thorough() {
+						// quick: n = 2 at every position (and once going on afterwards); n = 1 and one
+						// position of n = 3 for the first four kinds
+						if (n != 2 && k >= 4) || (n == 3 && pos != (k+1)%4) || (then == "more" && !(n == 2 && pos == 1)) {
+							continue
+						}
+					}
+					add("high", n, pos, h, then)
+				}
+			}
+		}
+	}
+	// controls with the top bit clear: ASCII text, the largest positive 32-bit value, one above the
+	// limit (too large); exactly the limit with nothing behind it, a short body (the stream ends
+	// inside the message); a body that is no message
+	for _, ctl := range [][2]string{{gen.Hex([]byte("Poop!")), "more"}, {"7fffffff", "exit1"}, {"01000001", "more"}, {"01000000", "exit0"},
+		{"00000005ffff", "exit0"}, {"00000003ffffff", "more"}, {"00000003ffffff", "exit1"}} {
+		for pos := 0; pos <= 2; pos++ {
+			add("control", 2, pos, ctl[0], ctl[1])
+		}
+	}
+	return ins
+}
+
 func c10Perms(n int) [][]int {
 	if n == 0 {
 		return [][]int{{}}
@@ -172,6 +232,7 @@ func runC10(c *gen.Ctx) error {
 		}
 		c.DoParallelOps(opsOf, slow, len(slow))
 	}
+	c.DoParallel("rawout", c10RawScenarios(c), 8)
 
 	reps := 6
 	workers := 8
